@@ -151,7 +151,42 @@ func runC26(c *Ctx) {
 			rphi, ok1 := stripNoCell(dyn[0].Common().Value).(*ssa.Phi)
 			aphi, ok2 := stripNoCell(ca.Common().Value).(*ssa.Phi)
 			construct := "daemon.(*Command).ServeHTTP#method-access-pairing"
-			if !ok1 || !ok2 || rphi.Block() != aphi.Block() {
+			// handler and checker picked together by a private method: rspf, access := c.handlerForMethod(r.Method)
+			hcR, hiR, okR := CallResult(dyn[0].Common().Value)
+			hcA, hiA, okA := CallResult(ca.Common().Value)
+			if okR && okA && hcR == hcA && hiR != hiA && hcR.Common().StaticCallee() != nil && hcR.Common().StaticCallee().Pkg == serve.Pkg && P.PrivateHelperOf(hcR.Common().StaticCallee(), map[string]bool{SSAFuncName(serve): true}) {
+				h := hcR.Common().StaticCallee()
+				c.touch(h)
+				want := map[*types.Var]*types.Var{fGET: fRead, fPUT: fWrite, fPOST: fWrite}
+				bad := ""
+				pairs := 0
+				type pr struct{ re, ae ssa.Value }
+				for _, hr := range ReturnsOf(h) {
+					re0, ae0 := stripNoCell(hr.Results[hiR]), stripNoCell(hr.Results[hiA])
+					cand := []pr{{re0, ae0}}
+					if rp, ok := re0.(*ssa.Phi); ok {
+						if ap, ok := ae0.(*ssa.Phi); ok && rp.Block() == ap.Block() {
+							cand = nil
+							for i := range rp.Edges {
+								cand = append(cand, pr{stripNoCell(rp.Edges[i]), stripNoCell(ap.Edges[i])})
+							}
+						}
+					}
+					for _, x := range cand {
+						if IsNilConst(x.re) {
+							continue
+						}
+						_, hf, ok := FieldLoad(x.re)
+						_, af, ok2 := FieldLoad(x.ae)
+						if !ok || !ok2 || want[hf] == nil || want[hf] != af {
+							bad += fmt.Sprintf(" %s returns %v with %v;", P.Pos(hr.Pos()), x.re, x.ae)
+							continue
+						}
+						pairs++
+					}
+				}
+				c.Check(bad == "" && pairs == 3, construct, ca.Pos(), fmt.Sprintf("%d handler fields paired with the right access field", pairs), "handler/access pairing broken:"+bad)
+			} else if !ok1 || !ok2 || rphi.Block() != aphi.Block() {
 				c.Undecided(construct, ca.Pos(), "handler and access checker are not selected by phis of one block; pairing cannot be read off the SSA")
 			} else {
 				want := map[*types.Var]*types.Var{fGET: fRead, fPUT: fWrite, fPOST: fWrite}
@@ -199,7 +234,7 @@ func runC26(c *Ctx) {
 			for _, r := range *fa.Referrers() {
 				switch x := r.(type) {
 				case *ssa.UnOp:
-					if fn != serve {
+					if fn != serve && !P.PrivateHelperOf(fn, map[string]bool{SSAFuncName(serve): true}) {
 						bad += fmt.Sprintf(" read in %s at %s;", SSAFuncName(fn), P.Pos(x.Pos()))
 					}
 					loads++
